@@ -35,6 +35,10 @@ for _pid, _t in {
     CHECKS[_pid] = dict(level="model_checking", design="5/" + _pid, text=_t, note=_lang_note,
         technique="explicit TLA+ executable semantics (Lang.tla, CEK machine) run by TLC on every generated program to predict output and status; predictions replayed on the real VM (mode G)")
 
+CHECKS["C13"] = dict(level="model_checking", design="5/C13", technique="TLA+ contract Cache.tla (class table rebuilt from events; every probe result = lookup in the receiver's current class) validated by TLC on cache event traces recorded from the VM; Lang.tla predictions compared with cached / forced-miss / cached-under-collection runs",
+   text="Class programs and class-churn programs are run with caches on, with every probe forced to miss and with caches on under a dense collection schedule; all three must reproduce the TLC prediction from Lang.tla, and TLC validates every recorded probe (hit or miss) and class-table event against Cache.tla.",
+   note="Trusts the cache hooks (probe events at the four sites, registry ids fresh per op_class), Lang.tla for outputs, TLC. Bounded by the generated program shapes; collection schedule every 3rd allocation with full sweeps.")
+
 NOT_APPLICABLE = {}
 
 def main():
